@@ -237,12 +237,10 @@ func (t *FSTree) readHeader(id oid.ID, f *os.File, buf []byte) ([]byte, io.ReadS
 				}
 			}
 
-			rsc := io.ReadSeekCloser(f)
-			if buffered := uint32(size - offset); l > buffered {
-				rsc = &limitedFileReader{
-					ReadSeekCloser: f,
-					limit:          int64(l - buffered),
-				}
+			// always limit the stream to this object: other ones may follow it in the file
+			rsc := &limitedFileReader{
+				ReadSeekCloser: f,
+				limit:          int64(l) - int64(size-offset),
 			}
 
 			return buf[offset:size], rsc, nil
